@@ -70,6 +70,22 @@ def gen_ops(tier, rng):
         p = rng.randint(1, 8)
         E = sorted(rng.sample(range(d + p), rng.randint(0, min(p + 1, d + p))))
         add(fam, rng.choice(OPTSETS), d, p, rng.choice([1, 8, 33, 64, 100]), rng.choice(["all", "data"]), E, [], "nil", "nonmds")
+    # exactly p DATA shards missing (the first pass then has as many outputs as Encode), shards above minSplitSize, every
+    # kernel family, few and many goroutines
+    for (d, p) in [(4, 2), (10, 4), (5, 3), (2, 1), (10, 1), (3, 3), (10, 10), (11, 2)]:
+        for o in ["-", "g=64,ms=1024", "gfni-,avxgfni-", "nosimd", "g=1"]:
+            E = sorted(rng.sample(range(d), min(d, p)))
+            fam = rng.choice(["default", "cauchy", "jerasure"])
+            for mode in ["all", "data"]:
+                add(fam, o, d, p, rng.choice([40000 + 17, 65536 + 33, 131072]), mode, E, [], rng.choice(["nil", "empty", "cap"]), "p-data-missing-large")
+    # sparse custom generators (about half of the coefficients zero): singular survivor sub-matrices are common, also the 1x1
+    # ones of a single data shard; every erasure set of small shapes, both modes, cache on and off
+    for seed in range(1, 9 if tier == "quick" else 60):
+        for (d, p) in [(1, 1), (1, 2), (1, 3), (2, 2), (2, 3), (3, 2)]:
+            for E in subsets(d + p, p):
+                if not E:
+                    continue
+                add(f"sparse:{seed}", rng.choice(["-", "ic-", "nosimd"]), d, p, rng.choice([1, 8, 64]), rng.choice(["all", "data"]), E, [], "nil", "nonmds-sparse")
     # sequences of reconstructions on ONE encoder (the inverted-matrix cache takes part): every answer must still be
     # the original bytes.  Biased towards neighbouring erasure sets visited in both orders.
     from . import c10
